@@ -423,7 +423,10 @@ def extra_missing_markers(ctx, rec):
     """C02: the three documented missing markers -- None, NaN and masked elements (also mixed within one masked array)"""
     g = gen_qc.Gen(ctx.seed + 67, size=ctx.pick(8, 14))
     carriers = ["list_none", "ma_nan", "ma_junk", "ma_mixed", "tuple_nan", "ma_i64far", "ma_fill"]
-    for fn in [f for f in ALL_FNS if f != "press"]:
+    fns = [f for f in ALL_FNS if f != "press"]
+    if ctx.prop != "C02":
+        fns = [f for f in fns if f in PLAN[ctx.prop]["random"]["fns"]]      # the rule of this property's tests under every spelling
+    for fn in fns:
         for rep in range(ctx.pick(14, 70)):
             c = g.base(fn)
             if fn == "valid" and c["p"]["kind"] == "time":
@@ -992,39 +995,39 @@ PLAN = {
     "C03": {"repo_fns": ["gross", "valid"], "mc": T([M("range", ["gross", "valid"], ["shiftboth", "recall"], 1, budget=14000)],
                     [M("range", ["gross", "valid"], ["shiftboth", "tighten"], 1, big=True, budget=150000)]),
             "random": {"fns": ["gross", "valid"], "count": (500, 6000), "kinds": ["recall", "shiftboth"], "size": (10, 30)},
-            "extra": [extra_long_series, extra_valid_int, extra_valid_time_bounds, extra_repo_tests, extra_shared_spans]},
+            "extra": [extra_missing_markers, extra_long_series, extra_valid_int, extra_valid_time_bounds, extra_repo_tests, extra_shared_spans]},
     "C08": {"repo_fns": ["clim"], "mc": T([M("clim", ["clim"], ["perturb"], 1, budget=16000)],
                     [M("clim", ["clim"], ["perturb", "tighten"], 1, big=True, budget=160000)]),
             "random": {"fns": ["clim"], "count": (500, 6000), "kinds": ["recall", "shiftt"], "size": (8, 24)},
-            "extra": [extra_long_series, extra_repo_tests, extra_shared_config]},
+            "extra": [extra_missing_markers, extra_long_series, extra_repo_tests, extra_shared_config]},
     "C09": {"repo_fns": ["spike"], "mc": T([M("spike4", ["spike"], ["reverse"], 4, budget=10000),
                      M("spike3p", ["spike"], ["perturb"], 3, budget=6000)],
                     [M("spike5", ["spike"], ["reverse"], 5, big=True, budget=120000),
                      M("spike4p", ["spike"], ["perturb", "tighten"], 4, budget=60000)]),
             "random": {"fns": ["spike"], "count": (500, 8000), "kinds": ["reverse", "negate"], "size": (10, 40)},
-            "extra": [extra_long_series, extra_big_offsets, extra_repo_tests]},
+            "extra": [extra_missing_markers, extra_long_series, extra_big_offsets, extra_repo_tests]},
     "C10": {"repo_fns": ["roc", "speed"], "mc": T([M("rates", ["roc", "speed"], ["shiftt"], 2, budget=12000),
                      M("roc3", ["roc"], ["perturb"], 3, budget=6000)],
                     [M("rates", ["roc", "speed"], ["shiftt"], 3, big=True, budget=150000),
                      M("roc4", ["roc"], ["perturb", "tighten"], 4, big=True, budget=60000)]),
             "random": {"fns": ["roc", "speed"], "count": (500, 8000), "kinds": ["shiftt"], "size": (10, 30)},
-            "extra": [extra_long_series, extra_big_offsets, extra_repo_tests]},
+            "extra": [extra_missing_markers, extra_long_series, extra_big_offsets, extra_repo_tests]},
     "C11": {"repo_fns": ["flat"], "mc": T([M("flat5", ["flat"], ["recall"], 5, budget=16000)],
                     [M("flat5", ["flat"], ["shiftv", "tighten"], 5, big=True, budget=150000)]),
             "random": {"fns": ["flat"], "count": (500, 8000), "kinds": ["negate", "shiftt"], "size": (10, 30)},
-            "extra": [extra_flat_fractional, extra_long_series, extra_big_offsets, extra_repo_tests]},
+            "extra": [extra_missing_markers, extra_flat_fractional, extra_long_series, extra_big_offsets, extra_repo_tests]},
     "C12": {"repo_fns": ["att"], "mc": T([M("att3", ["att"], ["shiftt"], 3, budget=16000)],
                     [M("att4", ["att"], ["shiftt", "shiftv"], 4, big=True, budget=150000)]),
             "random": {"fns": ["att"], "count": (400, 6000), "kinds": ["shiftv"], "size": (8, 24)},
-            "extra": [extra_long_series, extra_repo_tests, extra_att_fractional]},
+            "extra": [extra_missing_markers, extra_long_series, extra_repo_tests, extra_att_fractional]},
     "C13": {"repo_fns": ["dens", "press"], "mc": T([M("profile", ["dens", "press"], ["mirror"], 3, budget=16000)],
                     [M("profile", ["dens", "press"], ["mirror", "perturb"], 4, budget=150000)]),
             "random": {"fns": ["dens", "press"], "count": (500, 8000), "kinds": ["mirror", "shiftv"], "size": (10, 30)},
-            "extra": [extra_long_series, extra_big_offsets, extra_repo_tests]},
+            "extra": [extra_missing_markers, extra_long_series, extra_big_offsets, extra_repo_tests]},
     "C14": {"repo_fns": ["loc"], "mc": T([M("loc", ["loc"], ["perturb"], 2, budget=14000)],
                     [M("loc", ["loc"], ["perturb", "tighten"], 3, big=True, budget=150000)]),
             "random": {"fns": ["loc"], "count": (500, 8000), "kinds": ["recall"], "size": (10, 30)},
-            "extra": [extra_long_series, extra_repo_tests]},
+            "extra": [extra_missing_markers, extra_long_series, extra_repo_tests]},
     "C15": {"mc": T([M("carrier_rules", ALL_FNS, ["recall"], 1, budget=0)],
                     [M("carrier_rules", ALL_FNS, ["recall"], 2, budget=0)]),
             "extra": [extra_carriers]},
